@@ -31,21 +31,22 @@ SigTicksAll(views, kind) == UNION {SigTicks(RelEvents(views[i]), kind) : i \in D
 DistinctSigTicks(views, kind) ==
     \A i, j \in DOMAIN views : \A a \in SeqRange(RelEvents(views[i])), b \in SeqRange(RelEvents(views[j])) :
         (a.ty = kind /\ b.ty = kind /\ a.t = b.t /\ (i # j \/ a # b)) => SigVal(a) = SigVal(b)
-(* r: [saved (seq of rel views), loaded (seq of abs views), raised] *)
+(* r: [saved (seq of rel views), loaded (seq of abs views), target (0-based index of the designated meta sequence), raised] *)
 SaveLoadClauses(r) ==
     LET n == Len(r.saved)
         le(i) == AbsEvents(r.loaded[i])
+        tg == IF r.target + 1 \in DOMAIN r.loaded THEN r.target + 1 ELSE 1
         ticks == {0} \cup SigTicksAll(r.saved, "ts") \cup SigTicksAll(r.saved, "ks")
-                 \cup SigTicks(le(1), "ts") \cup SigTicks(le(1), "ks")
+                 \cup SigTicks(le(tg), "ts") \cup SigTicks(le(tg), "ks")
     IN << <<"one-sequence-per-saved", Len(r.loaded) = n>>,
           <<"notes-identical", Len(r.loaded) = n => \A i \in 1 .. n :
                  {NoteCore(x) : x \in Notes(le(i))} = {NoteCore(x) : x \in Notes(RelEvents(r.saved[i]))}>>,
           <<"loaded-well-formed", \A i \in DOMAIN r.loaded : Alternates(le(i))>>,
           <<"time-signature-in-force", Len(r.loaded) >= 1 => \A t \in ticks :
-                 InForce(le(1), "ts", t, <<4, 4>>) = InForceAll(r.saved, "ts", t, <<4, 4>>)>>,
+                 InForce(le(tg), "ts", t, <<4, 4>>) = InForceAll(r.saved, "ts", t, <<4, 4>>)>>,
           <<"key-signature-in-force", Len(r.loaded) >= 1 => \A t \in ticks :
-                 InForce(le(1), "ks", t, <<"">>) = InForceAll(r.saved, "ks", t, <<"">>)>>,
-          <<"signatures-only-on-meta-sequence", \A i \in 2 .. Len(r.loaded) : SigsOf(le(i), "ts") = <<>> /\ SigsOf(le(i), "ks") = <<>>>> >>
+                 InForce(le(tg), "ks", t, <<"">>) = InForceAll(r.saved, "ks", t, <<"">>)>>,
+          <<"signatures-only-on-meta-sequence", \A i \in DOMAIN r.loaded : i # tg => (SigsOf(le(i), "ts") = <<>> /\ SigsOf(le(i), "ks") = <<>>)>> >>
 InSaveDomain(r) == /\ \A i \in DOMAIN r.saved : LET e == RelEvents(r.saved[i]) IN
                         /\ WellFormed(e) /\ NoOverlap({[x EXCEPT !.ch = 0] : x \in Notes(e)})
                         /\ Cardinality({[x EXCEPT !.ch = 0] : x \in Notes(e)}) = Cardinality(Notes(e))
